@@ -561,14 +561,41 @@ def b7(prog):
         if not casts:
             continue
         g = CFG(f)
+        # bool locals that record a test: `bool const ok = p != nullptr && q != nullptr;` - ok true implies p is not null
+        flags = {}
+        for d in walk_nolambda(f["body"]):
+            if d.get("k") == "decl":
+                for bv in d.get("vars", []):
+                    if str(bv.get("t", "")).replace("const ", "").strip() == "bool" and bv.get("init") is not None:
+                        flags[bv["id"]] = bv["init"]
+
+        def conjuncts(e, op):
+            e = unwrap(e)
+            if isinstance(e, dict) and e.get("k") == "bin" and e.get("op") == op:
+                return conjuncts(e["lhs"], op) + conjuncts(e["rhs"], op)
+            return [e]
         for v in casts:
             vid = v["id"]
             key = "B7:%s:%s" % (f["q"], v["n"])
+
+            def flag_null_edge(c, vid=vid):
+                """a condition on a bool local that was computed from a test of the variable: the edge on which the variable may be null"""
+                c = unwrap(c)
+                if not (isinstance(c, dict) and c.get("k") == "ref" and c.get("id") in flags):
+                    return None
+                init = flags[c["id"]]
+                if any(null_edge(x, vid) is False for x in conjuncts(init, "&&")):
+                    return False          # flag true => every conjunct true => not null; null only when the flag is false
+                if any(null_edge(x, vid) is True for x in conjuncts(init, "||")):
+                    return True           # flag false => every disjunct false => not null; null only when the flag is true
+                return None
 
             def edge_ok(n, t, lab, vid=vid):
                 if n.kind != "cond" or not isinstance(n.ast, dict) or contains_assert(n.ast) or from_assert(n.ast):
                     return True
                 ne = null_edge(n.ast, vid)
+                if ne is None:
+                    ne = flag_null_edge(n.ast)
                 return ne is None or lab == ne        # follow only the paths on which the variable may still be null
             reach = g.reachable(edge_ok=edge_ok)
             bad = [n for n in g.nodes if n.id in reach and isinstance(n.ast, dict) and not contains_assert(n.ast) and derefs(n.ast, vid)]
